@@ -1060,6 +1060,34 @@ def formal_name(rng):
     return ("_ZN" + quals + enc + "E" + tys).encode(), name.encode()
 
 
+def formal_rust(rng):
+    """a name of the grammar of theorem C13_roundtrip_rust_escapes_partial; expected value from rust_legacy_expected"""
+    def txt(lo=0):
+        return "".join(rng.choice("abcdefgxyzABCXYZ_0123456789") for _ in range(rng.randrange(lo, 7)))
+
+    def block():
+        return "".join(txt() + ".." for _ in range(rng.choice([0, 0, 1, 2, 3]))) + txt()
+    comps = []
+    for _ in range(rng.randrange(1, 4)):
+        k = rng.random()
+        if k < 0.4:
+            c = rng.choice("abcxyz_") + txt()
+        else:
+            c = ""
+            for _ in range(rng.randrange(1 if k < 0.8 else 0, 4)):
+                c += block() + "$" + rng.choice(sorted(RUST_ESC)) + "$"
+            if k < 0.8:
+                c += rng.choice(["", txt(), txt() + "." + txt()])
+            else:
+                c += block() + "$u20$as$u20$" + rng.choice(["", "core..fmt..Debug$GT$", "x$LT$y", "a..b$"])
+            if not c or c[0].isdigit() or "$u20$as$u20$" in c.split("$u20$as$u20$", 1)[0]:
+                c = "_" + c
+        comps.append(c)
+    h = "h" + "".join(rng.choice("0123456789abcdef") for _ in range(16))
+    m = "_ZN" + "".join("%d%s" % (len(c), c) for c in comps) + "17" + h + "E"
+    return m, rust_legacy_expected(m)
+
+
 def deep_names(depth):
     """nesting depth `depth` in each of the recursive productions"""
     d = depth
@@ -1274,6 +1302,9 @@ def gen_cases(ctx):
     for _ in range(ctx.n(150, 2500)):
         m, want = formal_name(rng)
         add(m, want, "formal-mangler")
+    for _ in range(ctx.n(80, 1500)):
+        m, want = formal_rust(rng)
+        add(m.encode(), want.encode() if want is not None else None, "formal-rust")
     base = [c["name"] for c in cases]
     # (b) grammar
     g = Gram(rng, 4)
